@@ -292,8 +292,13 @@ def desugar_for_ranges(b, ordinals, g, where):
             for o, c in bpairs.items():
                 if btoks[o].start == bpos:
                     close = btoks[c].start
-            new_head = "{ let mut verif_next_%d: usize = 0;\n        while verif_next_%d < %s.len()\n        " % (k, k, vec)
-            body_intro = " let %s = &%s%s[verif_next_%d]; verif_next_%d += 1;" % (var, "mut " if is_mut else "", vec, k, k)
+            if is_mut:
+                new_head = "{ let mut verif_next_%d: usize = 0;\n        while verif_next_%d < %s.len()\n        " % (k, k, vec)
+                body_intro = " let %s = &mut %s[verif_next_%d]; verif_next_%d += 1;" % (var, vec, k, k)
+            else:
+                # the iterated vector gets a fixed name so that invariants do not depend on what the source calls it
+                new_head = "{ let verif_vec_%d = &%s; let mut verif_next_%d: usize = 0;\n        while verif_next_%d < verif_vec_%d.len()\n        " % (k, vec, k, k, k)
+                body_intro = " let %s = &verif_vec_%d[verif_next_%d]; verif_next_%d += 1;" % (var, k, k, k)
             b = b[:kwpos] + new_head + "{" + body_intro + b[bpos + 1:close + 1] + " }" + b[close + 1:]
             g.rewrites.append({"item": where, "rule": "R21", "loop": k, "old": header.strip(),
                                "new": (new_head + "{" + body_intro).strip(),
